@@ -228,3 +228,125 @@ def as_reduction(e, names=("sum",)):
         inner, rest = recv, list(e.args)
     dim = next((k.value for k in e.keywords if k.arg in ("dim", "axis")), rest[0] if rest else None)
     return e.func.attr, inner, dim
+
+
+# ---------------------------------------------------------------------------------------
+# closed integer formulas:  decide  f(n) == spec(n)  by exhaustive evaluation on a range
+# ---------------------------------------------------------------------------------------
+
+
+class _NoEval(Exception):
+    pass
+
+
+def _int_eval(e, env):
+    """Evaluate a closed arithmetic expression over Python ints (the checker's own evaluator: no
+    code of the repository is run).  Operations outside the table raise _NoEval."""
+    import math
+
+    if isinstance(e, ast.Constant):
+        if isinstance(e.value, (int, float)) and not isinstance(e.value, complex):
+            return e.value
+        raise _NoEval()
+    if isinstance(e, ast.Name):
+        if e.id in env:
+            return env[e.id]
+        raise _NoEval()
+    if isinstance(e, ast.UnaryOp):
+        v = _int_eval(e.operand, env)
+        if isinstance(e.op, ast.USub):
+            return -v
+        if isinstance(e.op, ast.UAdd):
+            return v
+        if isinstance(e.op, ast.Not):
+            return not v
+        if isinstance(e.op, ast.Invert) and isinstance(v, int):
+            return ~v
+        raise _NoEval()
+    if isinstance(e, ast.BinOp):
+        a, b = _int_eval(e.left, env), _int_eval(e.right, env)
+        try:
+            if isinstance(e.op, ast.Add):
+                return a + b
+            if isinstance(e.op, ast.Sub):
+                return a - b
+            if isinstance(e.op, ast.Mult):
+                return a * b
+            if isinstance(e.op, ast.FloorDiv):
+                return a // b
+            if isinstance(e.op, ast.Mod):
+                return a % b
+            if isinstance(e.op, ast.Div):
+                return a / b
+            if isinstance(e.op, ast.Pow) and abs(b) <= 8:
+                return a ** b
+            if isinstance(e.op, ast.RShift):
+                return a >> b
+            if isinstance(e.op, ast.LShift) and b <= 16:
+                return a << b
+            if isinstance(e.op, ast.BitAnd):
+                return a & b
+            if isinstance(e.op, ast.BitOr):
+                return a | b
+        except (ZeroDivisionError, TypeError, ValueError, OverflowError):
+            raise _NoEval()
+        raise _NoEval()
+    if isinstance(e, ast.IfExp):
+        return _int_eval(e.body if _int_eval(e.test, env) else e.orelse, env)
+    if isinstance(e, ast.Compare) and len(e.ops) == 1:
+        a, b = _int_eval(e.left, env), _int_eval(e.comparators[0], env)
+        op = type(e.ops[0])
+        table = {ast.Eq: a == b, ast.NotEq: a != b, ast.Lt: a < b, ast.LtE: a <= b, ast.Gt: a > b, ast.GtE: a >= b}
+        if op in table:
+            return table[op]
+        raise _NoEval()
+    if isinstance(e, ast.BoolOp):
+        vals = [_int_eval(v, env) for v in e.values]
+        return all(vals) if isinstance(e.op, ast.And) else any(vals)
+    if isinstance(e, ast.Call) and not e.keywords:
+        f = " ".join(ast.unparse(e.func).split())
+        args = [_int_eval(a, env) for a in e.args]
+        try:
+            if f == "int" and len(args) == 1:
+                return int(args[0])
+            if f == "round" and len(args) == 1:
+                return round(args[0])
+            if f in ("math.ceil", "np.ceil", "numpy.ceil") and len(args) == 1:
+                return math.ceil(args[0])
+            if f in ("math.floor", "np.floor", "numpy.floor") and len(args) == 1:
+                return math.floor(args[0])
+            if f == "abs" and len(args) == 1:
+                return abs(args[0])
+            if f in ("min", "max") and args:
+                return min(args) if f == "min" else max(args)
+            if f == "divmod" and len(args) == 2:
+                return divmod(args[0], args[1])
+            if f == "__component__" and len(args) == 2 and isinstance(args[0], tuple):
+                return args[0][args[1]]
+        except (ZeroDivisionError, TypeError, ValueError, OverflowError):
+            raise _NoEval()
+        raise _NoEval()
+    if isinstance(e, ast.Subscript) and isinstance(e.slice, ast.Constant):
+        v = _int_eval(e.value, env)
+        if isinstance(v, tuple):
+            return v[e.slice.value]
+    raise _NoEval()
+
+
+def int_formula_verdict(e, var, spec, lo=0, hi=96):
+    """True when expr(var=n) == spec(n) for every integer n in [lo, hi], (False, n, got, want)
+    at the first difference, None when the expression is not a closed integer formula of `var`.
+    (The formulas in question are piecewise linear with period <= 4; the range is ample.)"""
+    names = {x.id for x in ast.walk(e) if isinstance(x, ast.Name)}
+    free = {n for n in names if n not in (var, "int", "round", "math", "np", "numpy", "abs", "min", "max", "divmod", "__component__")}
+    if free:
+        return None
+    for n in range(lo, hi + 1):
+        try:
+            got = _int_eval(e, {var: n})
+        except _NoEval:
+            return None
+        want = spec(n)
+        if isinstance(got, bool) or got != want or (isinstance(got, float) and not float(got).is_integer()):
+            return (False, n, got, want)
+    return True
